@@ -778,6 +778,7 @@ Definition gop_code (o : gop) : N :=
   match o with
   | GBlkReadonly => 1 | GBlkFlush => 2 | GConsoleSize => 3 | GConsoleEmergWrite => 4 | GGpuGetEdid => 5
   | GNetHeader => 6 | GNetSend _ => 7 | GRngRequest _ => 8
+  | GGpuEdidVia e => if e =? 10 then 10 else 9 | GNetRecvHdr => 11
   end.
 Definition out_class (o : outcome N) : N := match o with Ok _ => 0 | Err _ => 1 | Panic => 2 | UB => 3 end.
 Definition out_value (o : outcome N) : N := match o with Ok v => v | Err c => c | _ => 0 end.
@@ -852,6 +853,7 @@ Proof.
          B_INDIRECT, B_EVENT_IDX, B_ACCESS_PLATFORM, B_VERSION_1 in *.
   all: try rewrite Hsi.
   all: try match goal with |- context [if ?l =? 0 then [] else [?l]] => destruct (l =? 0) end.
+  all: try match goal with |- context [if ?e =? 10 then 10 else 9] => destruct (e =? 10) end.
   all: cbn -[bit cfg_ok cfg_val N.mul N.add read_seq].
   all: split_bits f.
   all: try reflexivity.
